@@ -6,7 +6,7 @@
     (statements printed by Coq from the lemmas they are proved by - tools/mkprop.py; statements only) *)
 From Coq Require Import Permutation Sorted.
 From CC Require Import Base.Prelude Base.Alloc Base.Ledger Generated.Status Generated.Guards.
-From CC Require Import Array.ArrayModel Array.ArrayProofs Array.ArrayRefine Array.ArrayMore.
+From CC Require Import Array.ArrayModel Array.ArrayProofs Array.ArrayRefine Array.ArrayMore Array.ArrayStack.
 From CC Require Import Deque.DequeModel Deque.DequeProofs Deque.DequeProofs2 Deque.DequeProofs3 Deque.DequeProofs4 Deque.DequeProofs5.
 Local Open Scope N_scope.
 
@@ -21,7 +21,7 @@ Theorem C09_stack_push :
             a_data (s_arr s') = a_data (s_arr s) ++ [x] /\
             arr_inv (s_arr s') al' /\ lim_ok (s_arr s') al' /\ s_hdr s' = s_hdr s /\ s_mem s' = s_mem s \/
             st = CC_ERR_ALLOC /\ s' = s /\ refused_once al al').
-Proof. exact stack_push_spec. Qed.
+Proof. exact CC.Array.ArrayMore.stack_push_spec. Qed.
 Print Assumptions C09_stack_push.
 
 (** pop returns and removes the most recently pushed element not yet popped; empty: error, same stack *)
@@ -33,7 +33,7 @@ Theorem C09_stack_pop :
          | [] => (CC_ERR_OUT_OF_RANGE, None, s)
          | top :: rest => (CC_OK, Some top, with_arr s (set_data (s_arr s) (rev rest)))
          end.
-Proof. exact stack_pop_spec. Qed.
+Proof. exact CC.Array.ArrayMore.stack_pop_spec. Qed.
 Print Assumptions C09_stack_pop.
 
 (** peek returns that same element without change *)
@@ -45,13 +45,35 @@ Theorem C09_stack_peek :
          | [] => (CC_ERR_VALUE_NOT_FOUND, None)
          | top :: _ => (CC_OK, Some top)
          end.
-Proof. exact stack_peek_spec. Qed.
+Proof. exact CC.Array.ArrayMore.stack_peek_spec. Qed.
 Print Assumptions C09_stack_peek.
+
+(** filter: the derived stack holds the kept elements bottom to top (so it pops them in the same relative order) *)
+Theorem C09_stack_filter :
+  forall (pred : N -> bool) (s : stack) (al : alloc_st),
+         arr_inv (s_arr s) al ->
+         lim_ok (s_arr s) al ->
+         limit al * 2 < W ->
+         exists (st : stat) (r : option stack) (al' : alloc_st),
+           stack_filter pred s al = Ok (st, r, al') /\
+           (a_size (s_arr s) = 0 -> st = CC_ERR_OUT_OF_RANGE /\ r = None /\ al' = al) /\
+           (0 < a_size (s_arr s) ->
+            st = CC_OK /\
+            (exists ns : stack,
+               r = Some ns /\
+               a_data (s_arr ns) = filter pred (a_data (s_arr s)) /\
+               a_cap (s_arr ns) = a_cap (s_arr s) /\
+               arr_inv (s_arr ns) al' /\
+               s_mem ns = s_mem s /\
+               a_mem (s_arr ns) = s_mem s /\ owned (s_mem s) (s_hdr ns) al' /\ s_hdr ns = next_id al) \/
+            st = CC_ERR_ALLOC /\ r = None /\ live al' = live al).
+Proof. exact CC.Array.ArrayStack.stack_filter_spec. Qed.
+Print Assumptions C09_stack_filter.
 
 (** iteration over the underlying array observes exactly the live elements, bottom to top *)
 Theorem C09_stack_iter :
   forall a : arr, a_size a < W -> it_collect (N.to_nat (a_size a)) a it_init = a_data a.
-Proof. exact it_fresh_complete. Qed.
+Proof. exact CC.Array.ArrayMore.it_fresh_complete. Qed.
 Print Assumptions C09_stack_iter.
 
 (** one queue operation refines the ideal FIFO list *)
@@ -67,7 +89,7 @@ Theorem C09_queue_step_refines :
            q_mem q' = q_mem q /\
            ((out, q_abs q') = spec_q_step (q_abs q) o \/
             out = DOut CC_ERR_ALLOC [] /\ q' = q /\ live a' = live a /\ (exists x : N, o = QEnq x)).
-Proof. exact queue_step_refines. Qed.
+Proof. exact CC.Deque.DequeProofs5.queue_step_refines. Qed.
 Print Assumptions C09_queue_step_refines.
 
 (** all enqueue/poll/peek histories *)
@@ -78,7 +100,7 @@ Theorem C09_queue_run_refines :
          exists (outs : list dq_out) (q' : queue) (a' : alloc_st),
            q_run q a ops = Ok (outs, q', a') /\
            q_inv q' /\ q_owns q' a' /\ (outs, q_abs q') = spec_q_run (q_abs q) ops (map is_alloc_err outs).
-Proof. exact queue_run_refines. Qed.
+Proof. exact CC.Deque.DequeProofs5.queue_run_refines. Qed.
 Print Assumptions C09_queue_run_refines.
 
 (** constructor, any capacity; a refusal leaves nothing behind *)
@@ -102,7 +124,7 @@ Theorem C09_queue_new :
                q_hdr q = next_id a
            | None => st = CC_ERR_ALLOC /\ live a' = live a
            end.
-Proof. exact q_new_conf_spec. Qed.
+Proof. exact CC.Deque.DequeProofs5.q_new_conf_spec. Qed.
 Print Assumptions C09_queue_new.
 
 (** destroy releases the wrapper and the deque *)
@@ -110,6 +132,6 @@ Theorem C09_queue_destroy :
   forall (q : queue) (a : alloc_st),
          q_owns q a ->
          exists a' : alloc_st, q_destroy q a = Ok a' /\ live a' = without (q_hdr q) (residue (q_d q) a).
-Proof. exact q_destroy_spec. Qed.
+Proof. exact CC.Deque.DequeProofs5.q_destroy_spec. Qed.
 Print Assumptions C09_queue_destroy.
 
